@@ -2,7 +2,7 @@
    coordinate map, stated in the column-major vocabulary of Index.v
      flat base n low k high = low + base * (k + n * high)   (element [low, k, high] of an
    operand whose axis dim has size n; base = product of the axes below dim), sample b of an
-   operand of sample volume V starting at b * V, and `bsel B b` = b when the operand has a
+   operand of sample volume V starting at b * V, and `bidx B b` = b when the operand has a
    minibatch (B > 1), 0 when its single sample is shared by all output samples.
    Each theorem is an iff characterising membership in the kernel's list of (dst, (operand, src))
    pairs (backward kernels: (dst, src) with gx[dst] += gy[src]). *)
@@ -88,7 +88,7 @@ Theorem C02_gather_pick_fw (sx sy : tshape) (ids : list nat) (dim base n R B Bx 
   In (d, (k, s)) (pick_fw sx sy ids dim) <->
   exists low high b, low < base /\ high < R /\ b < B /\ k = 0 /\
     d = b * (base * 1 * R) + flat base 1 low 0 high /\
-    s = bsel Bx b * (base * n * R) + flat base n low (nth (bsel (length ids) b) ids 0) high.
+    s = bidx Bx b * (base * n * R) + flat base n low (nth (bidx (length ids) b) ids 0) high.
 Proof. exact (pick_fw_spec sx sy ids dim base n R B Bx Hbase Hnx Hvy Hvx Hby Hbx Hbc Hic Hids Hb0 d k s). Qed.
 Print Assumptions C02_gather_pick_fw.
 
@@ -106,7 +106,7 @@ Theorem C02_gather_pick_bw (sx sy : tshape) (ids : list nat) (dim base n R B Bx 
   (d s : nat) :
   In (d, s) (pick_bw sy sx ids dim) <->
   exists low high b, low < base /\ high < R /\ b < B /\
-    d = bsel Bx b * (base * n * R) + flat base n low (nth (bsel (length ids) b) ids 0) high /\
+    d = bidx Bx b * (base * n * R) + flat base n low (nth (bidx (length ids) b) ids 0) high /\
     s = b * (base * 1 * R) + flat base 1 low 0 high.
 Proof. exact (pick_bw_spec sx sy ids dim base n R B Bx Hbase Hnx Hvy Hvx Hby Hbx Hbc Hic Hids Hb0 d s). Qed.
 Print Assumptions C02_gather_pick_bw.
@@ -130,8 +130,8 @@ Theorem C02_gather_slice_bw (sx sy : tshape) (dim off base nx ny R Bx By : nat)
   (d s : nat) :
   In (d, s) (slice_bw sy sx dim off) <->
   exists low j high b, low < base /\ j < ny /\ high < R /\ b < Nat.max Bx By /\
-    d = bsel Bx b * (base * nx * R) + flat base nx low (j + off) high /\
-    s = bsel By b * (base * ny * R) + flat base ny low j high.
+    d = bidx Bx b * (base * nx * R) + flat base nx low (j + off) high /\
+    s = bidx By b * (base * ny * R) + flat base ny low j high.
 Proof. exact (slice_bw_spec sx sy dim off base nx ny R Bx By Hbase Hbasey Hnx Hny Hvx Hvy Hbx Hby Hcompat HBx HBy Hoff Hb0 Hn0 d s). Qed.
 Print Assumptions C02_gather_slice_bw.
 
@@ -146,7 +146,7 @@ Theorem C02_gather_inplace_add (sx sy : tshape) (V Bx By : nat)
   (HBy : 0 < By)
   (d s : nat) :
   In (d, s) (inplace_add sx sy) <->
-  exists b i, b < Nat.max Bx By /\ i < V /\ d = bsel By b * V + i /\ s = bsel Bx b * V + i.
+  exists b i, b < Nat.max Bx By /\ i < V /\ d = bidx By b * V + i /\ s = bidx Bx b * V + i.
 Proof. exact (inplace_add_spec sx sy V Bx By Hvx Hvy Hbx Hby Hcompat HBx HBy d s). Qed.
 Print Assumptions C02_gather_inplace_add.
 
@@ -201,7 +201,7 @@ Theorem C02_gather_concat_fw (xs : list tshape) (sy : tshape) (dim base ny R B :
   exists sx low j high b, nth_error xs k = Some sx /\
     low < base /\ j < tget sx dim /\ high < R /\ b < B /\
     d = b * (base * ny * R) + flat base ny low (concat_off xs dim k + j) high /\
-    s = bsel (tbatch sx) b * (base * tget sx dim * R) + flat base (tget sx dim) low j high.
+    s = bidx (tbatch sx) b * (base * tget sx dim * R) + flat base (tget sx dim) low j high.
 Proof. exact (concat_fw_spec xs sy dim base ny R B Hbase Hny Hsum Hvy Hby Hxs Hb0 Hn0 d k s). Qed.
 Print Assumptions C02_gather_concat_fw.
 
